@@ -122,6 +122,32 @@ def clause_history_window(R, F):
             txt = fm.text(role)
             if not bad and r == {"last": 1, "n": -1} and k == 11 and rel == "<=" and any(WINDOW_CONST in c for c in fm.lin.consts):
                 ok = True
+    if f and not ok:
+        # `keys().last().map_or(true, |&last| last + W < n)`: the comparison sits in the closure, None (no entry) reads as old
+        for c in f.calls():
+            if (c.method or "") != "map_or" or f.is_cleanup(c.bb) or len(c.args) < 3:
+                continue
+            recv, dflt = origin(f, c.args[0]), origin(f, c.args[1])
+            if not (mentions(recv, ".cache") and (mentions(recv, "last") or mentions(recv, "next_back") or mentions(recv, "last_key_value"))):
+                continue
+            if not (dflt[0] == "const" and dflt[1] is True):
+                continue
+            for cid in ((c.func or {}).get("arg_cl") or []):
+                g = F.fns.get(cid)
+                if g is None:
+                    continue
+                def role_cl(a):
+                    sa = show(a)
+                    if "param" in sa:
+                        return "last"
+                    if "upvar" in sa:
+                        return "n"
+                    return None
+                for fm, line in return_form(g):
+                    r, k, rel, bad = fm.roles(role_cl)
+                    txt = fm.text(role_cl)
+                    if not bad and r == {"last": 1, "n": -1} and k == 11 and rel == "<=" and any(WINDOW_CONST in cc for cc in fm.lin.consts):
+                        ok = True
     R.ob(ok, "GUARD", f.where() if f else "history", "GUARD|is_old|form",
          "is_old is `%s`; expected `last + %s(=10) < n`" % (txt, WINDOW_CONST),
          sample={"rule": "GUARD", "fn": "is_old", "form": txt})
@@ -198,6 +224,35 @@ def clause_history_window(R, F):
             txt = fm.text(role3)
             if not bad and r == {"key": 1, "N": -1} and k == 0 and rel == "<=":
                 ok = True
+    if not ok:
+        # the same roll-back written as a loop that removes the newest entry while its key is above N:
+        # `while let Some(e) = cache.last_entry() { if *e.key() <= N { return }; e.remove(); }`
+        hr = _history_impl(F, "reorg")
+        if hr is not None:
+            import looprule as _LR
+            loops = _LR.natural_loops(hr)
+            def role3b(a):
+                if a[0] == "param" and a[1] == 2:
+                    return "N"
+                if mentions(a, ".cache") and (mentions(a, "last_entry") or mentions(a, "last_key_value") or mentions(a, "pop_last") or mentions(a, "next_back")):
+                    return "key"
+                return None
+            for (b2, s2, fm, line) in edge_forms(hr):
+                r, k, rel, bad = fm.roles(role3b)
+                if bad or r != {"key": 1, "N": -1} or k != 0 or rel != "<=":
+                    continue
+                body = [bd for (h_, bd, _bk) in loops if b2 in bd]
+                if not body:
+                    continue
+                body = min(body, key=len)
+                others = [x for x in hr.succ(b2) if x != s2]
+                rem = [c for c in hr.calls() if (c.method or "") in ("remove", "pop_last", "remove_entry") and c.bb in body and not hr.is_cleanup(c.bb)
+                       and mentions(origin(hr, c.args[0]), ".cache")]
+                # `key <= N` leaves the loop without removing; the other edge removes that newest entry and goes round
+                if s2 not in body or not any(c.bb in hr.reachable(s2, avoid={b2}) for c in rem):
+                    if others and rem and all(c.bb in hr.reachable(others[0], avoid={b2}) for c in rem) and not any(c.bb in hr.reachable(s2, avoid={b2}) for c in rem):
+                        ok = True
+                        txt = "loop: remove newest while key > N"
     R.ob(ok, "GUARD", cl[0].where() if cl else "history", "GUARD|history.reorg|retain",
          "history rollback keeps `%s`; expected `key <= N`" % txt, sample={"rule": "GUARD", "fn": "history.reorg", "form": txt})
     # set / unset: refuse block < last; same guard both
@@ -273,6 +328,43 @@ def _all_but_last(F, g):
                         bt = _W.resolve(F, rc, bound)
                         if "param" in show(keyt) and (mentions(bt, "last") or mentions(bt, "max") or mentions(bt, "next_back")) and mentions(bt, "filter"):
                             return True, "retain(key >= last(old keys))"
+    # retain(|key| key == newest_old || !old(key)) with newest_old = last() of the old keys: the equality edge keeps, the old
+    # predicate's true edge (an old key other than the newest) drops, its false edge keeps
+    from terms import forced_result
+    for c in calls:
+        if (c.method or "") != "retain":
+            continue
+        for cid in ((c.func or {}).get("arg_cl") or []):
+            rc = F.fns.get(cid)
+            if rc is None:
+                continue
+            rc = F.inlined(rc)
+            eq_ok = old_ok = False
+            for (b2, s2, fm, line) in edge_forms(rc):
+                ts = list(fm.lin.terms.items())
+                if fm.rel == "==" and fm.lin.k == 0 and len(ts) == 2 and sorted(v for _, v in ts) == [-1, 1]:
+                    other = [a for a, v in ts if "param" not in show(a)]
+                    if other and any("param" in show(a) for a, _ in ts):
+                        bt = _W.resolve(F, rc, other[0])
+                        if (mentions(bt, "last") or mentions(bt, "max") or mentions(bt, "next_back")) and mentions(bt, "filter") and forced_result(rc, s2) == {True}:
+                            eq_ok = True
+                if fm.rel == "<=" and fm.lin.k == 10 and any(WINDOW_CONST in cc for cc in fm.lin.consts) and len(ts) == 2:
+                    keyt = [a for a, v in ts if v == 1]
+                    if keyt and "param" in show(keyt[0]):
+                        others = [x for x in rc.succ(b2) if x != s2]
+                        if forced_result(rc, s2) == {False} and others and forced_result(rc, others[0]) == {True}:
+                            old_ok = True
+            if eq_ok and not old_ok:
+                # no branch on the old predicate: the closure returns `!(key + W <= latest)` when the key is not the newest old one
+                for fm, line in return_form(rc):
+                    for cand in (fm.negate(),):
+                        ts = list(cand.lin.terms.items())
+                        if cand.rel == "<=" and cand.lin.k == 10 and len(ts) == 2 and any(WINDOW_CONST in cc for cc in cand.lin.consts):
+                            keyt = [a for a, v in ts if v == 1]
+                            if keyt and "param" in show(keyt[0]):
+                                old_ok = True
+            if eq_ok and old_ok:
+                return True, "retain(key == last(old keys) || !old(key))"
     if not removes:
         return False, None
     how = None
